@@ -31,8 +31,12 @@ FusionPeptides(d, a) ==
 (* peptides, is in the FASTA                                                                      *)
 Canonical == CanonicalPool(C.proteome, C.cfg)
 DonorRef(d) == LET o == OrfOf(TxSeq(C.chrom, C.dtx[d]), C.dinfo[d].orfStart, {}) IN OrfPeptides(o.pep, C.cfg, TRUE, o.open, FALSE)
+(* a breakpoint on the last intronic base before an exon is written as a record positioned on    *)
+(* that exon's first base: the GVF record cannot say whether the intron was retained, so nothing  *)
+(* is required for such rows                                                                      *)
+AmbiguousBreak(t, lb) == ~Exonic(t, lb) /\ Exonic(t, IF t.strand = 1 THEN lb + 1 ELSE lb - 1)
 FusionRequired(d, a) ==
-  IF ~C.dinfo[d].coding \/ Len(DonorSeq(C.chrom, C.dtx[d], C.lb)) < C.dinfo[d].orfStart + 3 THEN {}
+  IF ~C.dinfo[d].coding \/ Len(DonorSeq(C.chrom, C.dtx[d], C.lb)) < C.dinfo[d].orfStart + 3 \/ AmbiguousBreak(C.dtx[d], C.lb) THEN {}
   ELSE LET s == DonorSeq(C.chrom, C.dtx[d], C.lb) \o AcceptorSeq(C.chrom, C.atx[a], C.rb)
            o == OrfOf(s, C.dinfo[d].orfStart, {})
        IN OrfPeptides(o.pep, C.cfg, TRUE, o.open, TRUE) \ (DonorRef(d) \cup Canonical)
